@@ -1,7 +1,7 @@
 #!/bin/sh
 # confirm_seed.sh <prop> <variant>: confirm a seeded change independently in the scratch worktree /tmp/wt-<prop>
 # (tests pass with it, demo fails with it, demo passes without it) and file it under /verif/seeded/<prop>-<variant>/
-id=$1; v=$2; wt=/tmp/wt-$id; src=/tmp/seeded-out/$id/$v; out=/verif/seeded/$id-$v
+id=$1; v=$2; wt=${WT:-/tmp/wt-$id}; src=${SRC:-/tmp/seeded-out/$id/$v}; out=/verif/seeded/$id-$v
 export CARGO_NET_OFFLINE=true
 cd $wt || exit 2
 git checkout -q -- . ; git clean -fdq -e target
